@@ -228,7 +228,7 @@ Section Tpl.
     assert (Hlt : len r < two31) by apply HP.
     rewrite rp_S. cbn [tskip]. rewrite (tts_ok STpl t Ht). unfold sret at 1. cbn [sbind].
     rewrite fixed_width_pos.
-    destruct (is_ty_ok t Ht) as (Hs&Hm&_&Hl&Hst&_). rewrite Hs, Hst, Hm, Hl.
+    destruct (is_ty_ok t Ht) as (Hs&Hm&_&Hl&Hst&_). rewrite Hs, Hst, Hm, Hl. clear Hs Hst Hm Hl.
     unfold lvl, is_fixed, is_str, is_map, is_list, is_struct, fixed_width.
     destruct (kind_of t) eqn:K; cbv beta iota.
     - rewrite N2Z.id. apply skip_exact; exact HR.
